@@ -10,8 +10,15 @@ def reverse_dfs(transition_list: list, final_states: list) -> list:
     """
     reversed_transitions = reverse_transition_list(transition_list)
     states_reaching_final = []
-    for final_state in final_states:
-        states_reaching_final = reverse_dfs_recursive(final_state, reversed_transitions, states_reaching_final)
+    visited = set()
+    stack = list(final_states)
+    while stack:
+        state = stack.pop()
+        if state in visited:
+            continue
+        visited.add(state)
+        states_reaching_final.append(state)
+        stack.extend(reversed_transitions[state])
 
     states_reaching_final = [state for state in states_reaching_final if state not in final_states]
     states_reaching_final.sort()
